@@ -342,7 +342,9 @@ def gen_constants(report):
 
     def decay():
         fn = num['calculate_decay_amplitudes']
-        emit_str('decayAmplitudesTail', ' ; '.join(src(s) for s in fn.body[-8:]),
+        body = [s for s in fn.body if not (isinstance(s, ast.Expr)
+                                           and isinstance(s.value, ast.Constant))]
+        emit_str('decayAmplitudesTail', ' ; '.join(src(s) for s in body[-8:]),
                  'last statements of calculate_decay_amplitudes')
     site('numeric.calculate_decay_amplitudes', decay)
 
